@@ -63,26 +63,63 @@ func (g *c15Gate) serve(c net.Conn) {
 			g.got[req.IRequestId] = true
 			answer := g.up
 			code := g.code
+			delay := g.delay
 			g.mu.Unlock()
 			if !answer {
 				continue
 			}
-			rsp := requestf.ResponsePacket{IVersion: req.IVersion, IRequestId: req.IRequestId, IRet: code}
-			if code != 0 {
-				rsp.SResultDesc = "scripted error reply"
-			}
-			os := codec.NewBuffer()
-			_ = os.WriteSliceInt8(make([]int8, 4))
-			if err := rsp.WriteTo(os); err != nil {
+			if delay > 0 { // slow endpoint: the answer leaves after the caller's deadline
+				go func(req requestf.RequestPacket) {
+					time.Sleep(time.Duration(delay) * time.Millisecond)
+					g.reply(c, &req, code)
+				}(req)
 				continue
 			}
-			bs := os.ToBytes()
-			binary.BigEndian.PutUint32(bs, uint32(len(bs)))
-			if _, err := c.Write(bs); err != nil {
+			if !g.reply(c, &req, code) {
 				return
 			}
 		}
 	}
+}
+
+func (g *c15Gate) reply(c net.Conn, req *requestf.RequestPacket, code int32) bool {
+	rsp := requestf.ResponsePacket{IVersion: req.IVersion, IRequestId: req.IRequestId, IRet: code}
+	if code != 0 {
+		rsp.SResultDesc = "scripted error reply"
+	}
+	os := codec.NewBuffer()
+	_ = os.WriteSliceInt8(make([]int8, 4))
+	if err := rsp.WriteTo(os); err != nil {
+		return true
+	}
+	bs := os.ToBytes()
+	binary.BigEndian.PutUint32(bs, uint32(len(bs)))
+	_, err := c.Write(bs)
+	g.mu.Lock()
+	if g.wrote == nil {
+		g.wrote = map[int32]bool{}
+	}
+	g.wrote[req.IRequestId] = err == nil
+	g.mu.Unlock()
+	return err == nil
+}
+
+func c15MaxDelay() int {
+	d := 0
+	for _, g := range c15Gates {
+		g.mu.Lock()
+		if g.delay > d {
+			d = g.delay
+		}
+		g.mu.Unlock()
+	}
+	return d
+}
+
+func (g *c15Gate) hasWritten(id int32) bool {
+	g.mu.Lock()
+	defer g.mu.Unlock()
+	return g.wrote[id]
 }
 
 func (g *c15Gate) setUp(v bool) {
@@ -203,6 +240,28 @@ func (r *c15Run) e2eCall(op *c15Op, last bool) []string {
 		sel = fmt.Sprintf("SelProbe %d", ai)
 	}
 	labels := fmt.Sprintf("%s; Out %d %s %s", sel, ai, coqBool(ok), coqBool(probe))
+	if !ok {
+		// slow endpoint: wait for the answer that leaves after the deadline, give Recv time to find no waiter; in the
+		// model a late reply is a label without effect (if it had one here, this and later observations differ)
+		g := c15Gates[sh.eid]
+		g.mu.Lock()
+		delay, up := g.delay, g.up
+		g.mu.Unlock()
+		if delay > 0 && up && g.has(msg.Req.IRequestId) {
+			deadline := time.Now().Add(time.Duration(delay+500) * time.Millisecond)
+			for time.Now().Before(deadline) && !g.hasWritten(msg.Req.IRequestId) {
+				time.Sleep(500 * time.Microsecond)
+			}
+			if g.hasWritten(msg.Req.IRequestId) {
+				time.Sleep(8 * time.Millisecond)
+				labels += fmt.Sprintf("; Late %d", ai)
+				r.classes["late-reply"] = true
+				if probe {
+					r.classes["late-reply-to-probe"] = true
+				}
+			}
+		}
+	}
 	op.Txt = fmt.Sprintf("real call -> adapter %d endpoint %d probe=%v answered=%v err=%v", ai, sh.eid, probe, ok, err != nil)
 	if ok && !c15Gates[sh.eid].has(msg.Req.IRequestId) {
 		r.fail("failover/answer-from-another-server", fmt.Sprintf("the call was answered, the selected adapter belongs to endpoint %d, but that server never read request %d", sh.eid, msg.Req.IRequestId))
@@ -273,7 +332,11 @@ func c15E2EGenOne(rng *rand.Rand, i int) c15Case {
 	segs := 2 + rng.Intn(3)
 	for k := 0; k < segs; k++ {
 		e := b.ep()
-		switch rng.Intn(8) {
+		switch rng.Intn(10) {
+		case 8: // slow rather than dead: every answer leaves after the caller's deadline (after good calls: the ratio rule is quiet)
+			b.segSlow(e)
+		case 9: // the registry moves an endpoint (blocked or not) to its inactive list and back
+			b.segFlap(true)
 		case 6: // the registry answer changes (adapters of dropped endpoints are closed; they may still be queued)
 			b.segRefresh()
 			for q := 0; q < len(b.reg)+1; q++ {
@@ -453,6 +516,60 @@ func c15E2ECorpus() []c15Case {
 			b.call(0, 0, false)
 		})
 	}
+	// slow, not dead: after good calls every answer of endpoint 1 leaves after the caller's deadline
+	mk("e2e-slow-endpoint", func(b *c15B) {
+		b.refresh([]int{0, 1})
+		for i := 0; i < 16; i++ {
+			b.call(0, 0, false)
+		}
+		b.slow(1, 65)
+		for i := 0; i < 11; i++ {
+			b.call(0, 0, false)
+		}
+		b.adv(5)
+		b.check() // endpoint 1: >= 5 timeouts in a row over >= 5 s: out, like a silent one
+		for i := 0; i < 4; i++ {
+			b.call(0, 0, false)
+		}
+		b.adv(30)
+		b.check()
+		b.call(0, 0, false) // probe, answered late: stays blocked
+		b.slow(1, 0)
+		b.adv(30)
+		b.check()
+		b.call(0, 0, false)
+		b.call(0, 0, false)
+		b.check()
+	})
+	// blocked endpoint moved to the registry's inactive list and back: stays out until a probe is answered
+	mk("e2e-blocked-endpoint-flap", func(b *c15B) {
+		b.refresh([]int{0, 1, 2})
+		for i := 0; i < 6; i++ {
+			b.call(0, 0, false)
+		}
+		b.up(1, false)
+		for i := 0; i < 16; i++ {
+			b.call(0, 0, false)
+		}
+		b.adv(5)
+		b.check()
+		b.refreshI([]int{0, 2}, []int{1})
+		for i := 0; i < 3; i++ {
+			b.call(0, 0, false)
+		}
+		b.up(1, true)
+		b.refreshI([]int{0, 1, 2}, nil)
+		b.check()
+		for i := 0; i < 6; i++ {
+			b.call(0, 0, false)
+		}
+		b.adv(30)
+		b.check()
+		for i := 0; i < 4; i++ {
+			b.call(0, 0, false)
+		}
+		b.check()
+	})
 	mk("e2e-all-blocked", func(b *c15B) {
 		b.refresh([]int{2, 3})
 		for i := 0; i < 4; i++ {
@@ -482,4 +599,125 @@ func c15E2ECorpus() []c15Case {
 		b.check()
 	})
 	return out
+}
+
+func (b *c15B) slow(e int, ms int64) { b.ops = append(b.ops, c15Op{K: "slow", E: e, D: ms}) }
+
+// slow endpoint: good calls first, then every call on e times out and is answered late, over >= 5 s; status check; it must be
+// out exactly as a silent endpoint would be; optionally it recovers and is probed
+func (b *c15B) segSlow(e int) {
+	n := len(b.reg)
+	for _, x := range b.reg {
+		b.net(x, true)
+		b.up(x, true)
+		b.code(x, 0)
+	}
+	for q := 0; q < int(b.pick(6, 8))*n; q++ {
+		b.call(0, 0, false)
+	}
+	b.slow(e, b.pick(60, 75))
+	for q := 0; q < int(b.pick(5, 6))*n; q++ {
+		b.call(0, 0, false)
+	}
+	b.adv(b.pick(5, 6))
+	b.check()
+	for q := 0; q < 2*n; q++ {
+		b.call(0, 0, false)
+	}
+	if b.coin(0.5) {
+		b.adv(30)
+		b.check()
+		b.call(0, 0, false) // the probe is answered late too: stays blocked
+		b.check()
+	}
+	if b.coin(0.6) {
+		b.slow(e, 0)
+		b.adv(31)
+		b.check()
+		for q := 0; q < n+1; q++ {
+			b.call(0, 0, false)
+		}
+	} else {
+		b.slow(e, 0)
+	}
+	b.name += fmt.Sprintf("slow(%d) ", e)
+}
+
+func c15Without(l []int, e int) []int {
+	var out []int
+	for _, x := range l {
+		if x != e {
+			out = append(out, x)
+		}
+	}
+	return out
+}
+
+// registry flap: endpoint e (first blocked, most of the time) moves active -> inactive -> active; other list changes
+// happen meanwhile; no probe of e is answered unless the history says so. real = real-call history (failures by silence).
+func (b *c15B) segFlap(real bool) {
+	if len(b.reg) < 2 {
+		return
+	}
+	e := b.ep()
+	n := len(b.reg)
+	block := b.coin(0.8)
+	if block {
+		if real {
+			b.up(e, false)
+			for q := 0; q < int(b.pick(5, 6))*n; q++ {
+				b.call(0, 0, false)
+			}
+		} else {
+			b.outs(e, int(b.pick(5, 6)), false)
+		}
+		b.adv(b.pick(5, 6))
+		b.check()
+	}
+	active := append([]int(nil), b.reg...)
+	rest := c15Without(active, e)
+	b.refreshI(rest, []int{e}) // e inactive
+	for q := 0; q < n; q++ {
+		b.call(0, 0, false)
+	}
+	if b.coin(0.5) {
+		b.adv(b.pick(1, 30, 31))
+		b.check()
+	}
+	if b.coin(0.3) { // another list change while e is inactive: some other endpoint joins or leaves
+		var other []int
+		for x := 0; x < c15Universe; x++ {
+			if x != e {
+				in := false
+				for _, y := range rest {
+					in = in || y == x
+				}
+				if in && (len(other) == 0 || b.coin(0.7)) || !in && b.coin(0.3) {
+					other = append(other, x)
+				}
+			}
+		}
+		if len(other) > 0 {
+			rest = other
+			b.refreshI(rest, []int{e})
+			b.call(0, 0, false)
+		}
+	}
+	if real {
+		b.up(e, true)
+	}
+	back := append(append([]int(nil), rest...), e)
+	b.refreshI(back, nil) // e active again: no probe has been answered, it must stay out if it was blocked
+	b.check()
+	for q := 0; q < len(back)+1; q++ {
+		b.call(0, 0, false)
+	}
+	if b.coin(0.5) { // now the regular way back
+		b.adv(31)
+		b.check()
+		for q := 0; q < len(back)+1; q++ {
+			b.call(0, 0, false)
+		}
+	}
+	b.name += fmt.Sprintf("flap(%d,blocked=%v) ", e, block)
 }
